@@ -33,7 +33,9 @@ RULE = ("part 'handoff': ProgGen programs whose remote nodes hand work (multi-ho
         "returned within a run are pairwise distinct; placement (unique, contiguous, start at 1, end at n) holds on the merged "
         "messages. part 'chain': 2-4 hops deep chains of preserved callables / continued tasks (each hop synchronous or on a joined thread) run as the "
         "only registered thread of a schedule: no hop blocks on something an earlier hop still holds (deadlock = violation), merged tape == "
-        "ground truth. part 'subprocess': the id crosses to a fresh interpreter via argv. part 'race': one preserve_context callable "
+        "ground truth. part 'forkwrite': the worker is forked while another thread of the parent is parked inside its file destination's write(): the "
+        "single-threaded child still continues the task into its own file (a child still stuck after 90 s as the only thread of its process "
+        "counts as blocked for good). part 'subprocess': the id crosses to a fresh interpreter via argv. part 'race': one preserve_context callable "
         "invoked by 2-4 threads under the line-granular scheduler (LINE events on eliot/_action.py), ALL one-preemption schedules "
         "per priority order plus sampled deeper ones: f runs exactly once, that caller gets f's result / f's exception object, "
         "every other caller gets TooManyCalls, exactly one remote action is logged; with no current action preserve_context(f) is f; the callables handed over are functions, functools.partial objects, objects with "
@@ -50,6 +52,7 @@ def plan(tier, seed):
     specs = [{"part": "handoff", "seed": seed, "lo": i, "hi": min(n, i + B)} for i in range(0, n, B)]
     m = 400 if tier == "quick" else 8000
     specs += [{"part": "chain", "seed": seed, "lo": i, "hi": min(m, i + 25)} for i in range(0, m, 25)]
+    specs += [{"part": "forkwrite", "seed": seed, "i": i} for i in range(8 if tier == "quick" else 60)]
     specs += [{"part": "subprocess", "seed": seed, "i": i} for i in range(6 if tier == "quick" else 60)]
     specs += [{"part": "race", "seed": seed, "i": i, "tier": tier} for i in range(16 if tier == "quick" else 200)]
     return specs
@@ -405,6 +408,85 @@ def part_race(spec, res):
         res["sample"] = {"part": "race", "callers": ncallers, "outcome": outcome, "baseline_events": base["events"]}
 
 
+def one_forkwrite(seed, i, res):
+    """The originating process forks its worker while another of its threads is in the middle of writing a log line (slow disk or
+    pipe). The child - a single-threaded copy - must still be able to continue the task and log into its own file."""
+    import signal
+    rng = random.Random("%s:C06:fw:%d" % (seed, i))
+    logdir = tempfile.mkdtemp(prefix="vf-c06fw-")
+    problems = []
+    try:
+        real = open(os.path.join(logdir, "parent.log"), "ab")
+        gate, inside = threading.Event(), threading.Event()
+
+        class SlowFile(object):
+            def write(self, data):
+                if data and threading.current_thread().name == "slow-writer":
+                    inside.set()
+                    gate.wait(120)
+                return real.write(data)
+
+            def flush(self):
+                real.flush()
+        dest = FileDestination(file=SlowFile())
+        add_destinations(dest)
+        status = None
+        try:
+            with start_action(action_type="fw:origin", nid=1) as a:
+                log_message(message_type="fw:m", nid=2)
+                t = threading.Thread(target=lambda: log_message(message_type="fw:background", nid=3), name="slow-writer")
+                t.start()
+                if not inside.wait(60):
+                    res["inconclusive"] = "the background writer never reached the file"
+                tid = a.serialize_task_id()
+                pid = os.fork()
+                if pid == 0:
+                    code = 0
+                    try:
+                        signal.signal(signal.SIGALRM, lambda *_: os._exit(17))
+                        signal.alarm(90)  # this process has one thread: if it is still here after 90 s it waits for something nobody can release
+                        remove_destination(dest)
+                        f = open(os.path.join(logdir, "child.log"), "ab")
+                        add_destinations(FileDestination(file=f))
+                        with Action.continue_task(task_id=tid, action_type="fw:remote", nid=10):
+                            log_message(message_type="fw:in-child", nid=11)
+                        f.close()
+                    except BaseException:
+                        code = 3
+                    finally:
+                        os._exit(code)
+                # let the background writer finish only after the child is done (or stuck)
+                _, status = os.waitpid(pid, 0)
+                gate.set()
+                t.join()
+                log_message(message_type="fw:m", nid=4)
+        finally:
+            gate.set()
+            remove_destination(dest)
+            real.close()
+        if status is not None and os.WIFEXITED(status) and os.WEXITSTATUS(status) == 17:
+            problems.append("a worker forked while another thread of the parent was writing a log line never got past its own first logging call (blocked for 90 s as the only thread of its process)")
+        elif status is None or not os.WIFEXITED(status) or os.WEXITSTATUS(status) != 0:
+            problems.append("the forked worker ended with wait status %r" % (status,))
+        msgs = []
+        for name in sorted(os.listdir(logdir)):
+            with open(os.path.join(logdir, name), "rb") as rf:
+                msgs += [json.loads(l) for l in rf.read().split(b"\n") if l]
+        if not problems:
+            tasks = list(Parser.parse_stream(msgs))
+            nids = sorted(m.get("nid") for m in msgs if m.get("nid") is not None)
+            if nids != [1, 2, 3, 4, 10, 11] or len(tasks) != 2 or not all(t.is_complete() for t in tasks):
+                problems.append("merged logs of parent and forked worker: nids %s, %d tasks, complete=%s" % (nids, len(tasks), [t.is_complete() for t in tasks]))
+    finally:
+        shutil.rmtree(logdir, ignore_errors=True)
+    res["evals"] += 1
+    c = res["counters"]
+    c["forks_while_a_thread_is_writing"] = c.get("forks_while_a_thread_is_writing", 0) + 1
+    res["nontrivial"].append(h(["forkwrite", i]))
+    if problems:
+        res["violations"].append({"msg": problems[0], "mech": None, "detail": {"part": "forkwrite", "problems": problems[:4]}})
+
+
 def one_chain(seed, i, res):
     """Multi-hop hand-offs: a preserved callable / continued task whose body hands work to a further one (synchronously or on a
     thread it joins), 2-4 hops deep, run as the only registered thread of a schedule so that blocking on a lock somebody in the
@@ -461,7 +543,9 @@ def one_chain(seed, i, res):
 
 def run_case(spec):
     res = {"evals": 0, "nontrivial": [], "counters": {}, "violations": [], "sample": None, "sets": {"interleavings": [], "preemption_lines": []}}
-    if spec["part"] == "chain":
+    if spec["part"] == "forkwrite":
+        one_forkwrite(spec["seed"], spec["i"], res)
+    elif spec["part"] == "chain":
         for i in range(spec["lo"], spec["hi"]):
             one_chain(spec["seed"], i, res)
     elif spec["part"] == "handoff":
